@@ -24,11 +24,8 @@ Definition lex_accepts (c : lexcase) : bool :=
           a plain string constant / name; Some (Some v): it holds v. *)
 Definition probecase := (pystr * pystr * list N * option (option pystr))%type.
 
-(* the description is written with the layout of the class docstring around it *)
-Definition site_payload (site s : pystr) : pystr :=
-  if pystr_eqb site (s2p "description") then s2p "
-    " ++ s ++ s2p "
-    " else s.
+(* every site writes the schema string itself (the description is the docstring, nothing around it) *)
+Definition site_payload (site s : pystr) : pystr := s.
 
   Definition probe_emit_mismatch (printable : N -> bool) (c : probecase) : bool :=
     let '(site, s, lit, obs) := c in
